@@ -80,9 +80,11 @@ def alternative_or_next(type_: Union[RDREdge.Alternative, RDREdge.Next],
     """
     new_branch = chained_logic(AND, *conditions)
     current_node = SymbolicExpression._current_parent_()
-    if isinstance(current_node._parent_, (Alternative, Next)):
-        current_node = current_node._parent_
-    elif isinstance(current_node._parent_, ExceptIf) and current_node is current_node._parent_.left:
+    # climb to the top of the chain the current branch belongs to: every alternative/next already attached to it, and
+    # the refinement whose refined branch it is (a third sequential alternative, or a second one after a refinement,
+    # would otherwise replace the previous alternative instead of following it).
+    while (isinstance(current_node._parent_, (Alternative, Next))
+           or (isinstance(current_node._parent_, ExceptIf) and current_node is current_node._parent_.left)):
         current_node = current_node._parent_
     prev_parent = current_node._parent_
     current_node._parent_ = None
@@ -95,5 +97,8 @@ def alternative_or_next(type_: Union[RDREdge.Alternative, RDREdge.Next],
     new_branch._node_.weight = type_
     new_conditions_root._parent_ = prev_parent
     if isinstance(prev_parent, BinaryOperator):
-        prev_parent.right = new_conditions_root
+        if prev_parent.left is current_node:
+            prev_parent.left = new_conditions_root
+        else:
+            prev_parent.right = new_conditions_root
     return new_conditions_root.right
